@@ -44,6 +44,7 @@ type Contract struct {
 	Ghost    []string
 	Opts     map[string]string
 	WriteSites []WriteSite
+	ReplayAssume []Clause
 }
 
 type ContractSet struct {
@@ -202,6 +203,8 @@ func (cs *ContractSet) parseFile(root, file string) error {
 					return fmt.Errorf("%s:%d: bad writesite", file, d.line)
 				}
 				cur.WriteSites = append(cur.WriteSites, WriteSite{Coll: f[0], Clause: parseClause(f[1], file, d.line)})
+			case "replay-assume":
+				cur.ReplayAssume = append(cur.ReplayAssume, parseClause(rest, file, d.line))
 			case "nopanic":
 				cur.NoPanic = true
 			case "pure":
